@@ -148,54 +148,21 @@ def bridge_pipeline(core):
         chain, from_core, one_register)
 
 
-def check(ctx, rep):
-    rep.rule('R09.a', 'the effect id is the slab key; lookup and removal use the id parameter only', floor=3)
-    rep.rule('R09.b', 'a registry entry is removed only once it has become Never, tested after resolve returned', floor=1)
-    rep.rule('R09.c', 'every effect returned by the core is registered once and serialised; none is dropped', floor=2)
-    rep.rule('R09.d', 'generated Effect::serialize pairs each variant with the same-named Ffi constructor; From<Request<Op>> builds the variant of Op', floor=20)
-    core = ctx.crate('default', 'crux_core')
-    probe = ctx.crate('controls', 'crux_verif_controls')
-    if core is None or probe is None:
-        rep.missing('R09.a', 'crux_core / probe facts')
-        return
-    reg = c06.method(core, 'crux_core::bridge::registry::ResolveRegistry', 'register')
-    res = c06.method(core, 'crux_core::bridge::registry::ResolveRegistry', 'resume')
-    if reg is None or res is None:
-        rep.missing('R09.a', 'ResolveRegistry::register / resume')
-        return
-    # R09.a register
-    inserts = [(bb, t) for bb, t in reg.calls('slab::Slab::insert')]
-    sers = [(bb, t) for bb, t in reg.calls('crux_core::core::effect::Effect::serialize')]
-    aggs = [s for bb, i, s in reg.stmts('assign') if s['rv']['k'] == 'agg' and path_matches(s['rv'].get('adt'), 'crux_core::bridge::Request')]
-    ok = False
-    detail = ''
-    if len(inserts) == 1 and len(sers) == 1 and len(aggs) == 1:
-        ib, it = inserts[0]
-        sb, st = sers[0]
-        fields = dict(zip(aggs[0]['rv']['fields'], aggs[0]['rv']['ops']))
-        # id <- EffectId(expect(try_into(insert(..))))
-        id_ok = False
-        for o in origins(reg, fields['id']):
-            if o.kind == 'agg' and path_matches(o.stmt['rv'].get('adt'), 'registry::EffectId'):
-                for x in origins(reg, o.stmt['rv']['ops'][0]):
-                    if x.kind == 'call' and call_matches(x.term, ['core::result::Result::expect', 'core::result::Result::unwrap']):
-                        for y in origins(reg, x.term['args'][0]):
-                            if y.kind == 'call' and call_matches(y.term, ['core::convert::TryInto::try_into', 'core::convert::TryFrom::try_from']):
-                                if all(z.kind == 'call' and z.bb == ib for z in origins(reg, y.term['args'][0])):
-                                    id_ok = True
-        resolver_ok = all(o.kind == 'call' and o.bb == sb and o.suffix == ['.1'] for o in origins(reg, it['args'][1])) and bool(origins(reg, it['args'][1]))
-        effect_ok = all(o.kind == 'call' and o.bb == sb and o.suffix == ['.0'] for o in origins(reg, fields['effect'])) and bool(origins(reg, fields['effect']))
-        src_ok = all(o.kind == 'arg' and o.n == 2 for o in origins(reg, st['args'][0]))
-        ok = id_ok and resolver_ok and effect_ok and src_ok
-        detail = 'id from the insert key: %s; inserted resolver is serialize().1: %s; returned effect is serialize().0: %s' % (id_ok, resolver_ok, effect_ok)
-    rep.expect('R09.a', ok, 'register', detail or 'shape', 'ResolveRegistry::register: the returned id is not the slab key of this effect\'s resolver (%s)' % detail)
+# Slab operations that never change the key of an existing entry
+SLAB_KEY_STABLE = {'new', 'with_capacity', 'insert', 'get', 'get_mut', 'remove', 'try_remove', 'contains', 'len', 'is_empty', 'capacity', 'reserve',
+                   'reserve_exact', 'shrink_to_fit', 'iter', 'iter_mut', 'vacant_entry', 'key'}
+
+
+def check_resume(rep, rid_a, rid_b, core, res):
+    """ResolveRegistry::resume touches only the entry addressed by the id parameter, resolves exactly that entry with the body parameter, and
+    removes an entry only when it can no longer be resolved"""
     # R09.a resume: every slab access indexes with id.0
     accesses = [(bb, t) for bb, t in res.calls('slab::Slab::get_mut', 'slab::Slab::get', 'slab::Slab::remove', 'slab::Slab::try_remove', 'slab::Slab::contains')]
     idx_ok = bool(accesses) and all(all(o.kind == 'arg' and o.n == 2 and o.suffix == ['.0'] for o in origins(res, t['args'][1], through_casts=True))
                                     and origins(res, t['args'][1], through_casts=True) for bb, t in accesses)
     others = [last_seg(t['callee']) for bb, t in res.calls() if norm(t.get('callee') or '').startswith('slab::Slab::') and
               last_seg(t['callee']) not in ('get_mut', 'get', 'remove', 'try_remove', 'contains')]
-    rep.expect('R09.a', idx_ok and not others and len(accesses) >= 2, 'resume|index', 'get_mut and remove both index with the id parameter',
+    rep.expect(rid_a, idx_ok and not others and len(accesses) >= 2, 'resume|index', 'get_mut and remove both index with the id parameter',
                'ResolveRegistry::resume touches the slab with an index other than the id parameter, or through %s' % others)
     entry_ok = False
     rcalls = [(bb, t) for bb, t in res.calls('crux_core::bridge::request_serde::ResolveSerialized::resolve')]
@@ -205,7 +172,7 @@ def check(ctx, rep):
         entry_ok = all(all(o.kind == 'call' and call_matches(o.term, ['slab::Slab::get_mut', 'slab::Slab::remove', 'slab::Slab::try_remove'])
                            for o in origins(res, t['args'][0])) and origins(res, t['args'][0]) and
                        all(o.kind == 'arg' and o.n == 3 for o in origins(res, t['args'][1], through_casts=True)) for bb, t in rcalls)
-    rep.expect('R09.a', entry_ok, 'resume|entry', 'the looked-up entry is resolved with the body parameter',
+    rep.expect(rid_a, entry_ok, 'resume|entry', 'the looked-up entry is resolved with the body parameter',
                'ResolveRegistry::resume resolves something other than the entry looked up under the id, or with other data')
     # R09.b
     removes = [(bb, t) for bb, t in res.calls('slab::Slab::remove', 'slab::Slab::try_remove')]
@@ -247,9 +214,68 @@ def check(ctx, rep):
         consumed = any(any(o.kind == 'call' and o.bb == rmb for o in origins(res, t['args'][0])) for bb, t in rcalls)
         this_ok = (feasible == {'Never'} and after_resolve) or (feasible == {'Once'} and consumed)
         ok = ok and this_ok
-    rep.expect('R09.b', ok, 'resume|remove-when-unresolvable',
+    rep.expect(rid_b, ok, 'resume|remove-when-unresolvable',
                'an entry is removed only on the Never edge of a test made after resolve() (or as a one-shot being consumed)',
                'ResolveRegistry::resume removes an entry that may still be resolvable (a Many entry, or before the Never test)')
+
+
+def check(ctx, rep):
+    rep.rule('R09.a', 'the effect id is the slab key; lookup and removal use the id parameter only', floor=3)
+    rep.rule('R09.b', 'a registry entry is removed only once it has become Never, tested after resolve returned', floor=1)
+    rep.rule('R09.c', 'every effect returned by the core is registered once and serialised; none is dropped', floor=2)
+    rep.rule('R09.d', 'generated Effect::serialize pairs each variant with the same-named Ffi constructor; From<Request<Op>> builds the variant of Op', floor=20)
+    core = ctx.crate('default', 'crux_core')
+    probe = ctx.crate('controls', 'crux_verif_controls')
+    if core is None or probe is None:
+        rep.missing('R09.a', 'crux_core / probe facts')
+        return
+    reg = c06.method(core, 'crux_core::bridge::registry::ResolveRegistry', 'register')
+    res = c06.method(core, 'crux_core::bridge::registry::ResolveRegistry', 'resume')
+    if reg is None or res is None:
+        rep.missing('R09.a', 'ResolveRegistry::register / resume')
+        return
+    # R09.a register
+    inserts = [(bb, t) for bb, t in reg.calls('slab::Slab::insert')]
+    sers = [(bb, t) for bb, t in reg.calls('crux_core::core::effect::Effect::serialize')]
+    aggs = [s for bb, i, s in reg.stmts('assign') if s['rv']['k'] == 'agg' and path_matches(s['rv'].get('adt'), 'crux_core::bridge::Request')]
+    ok = False
+    detail = ''
+    if len(inserts) == 1 and len(sers) == 1 and len(aggs) == 1:
+        ib, it = inserts[0]
+        sb, st = sers[0]
+        fields = dict(zip(aggs[0]['rv']['fields'], aggs[0]['rv']['ops']))
+        # id <- EffectId(expect(try_into(insert(..))))
+        id_ok = False
+        for o in origins(reg, fields['id']):
+            if o.kind == 'agg' and path_matches(o.stmt['rv'].get('adt'), 'registry::EffectId'):
+                for x in origins(reg, o.stmt['rv']['ops'][0]):
+                    if x.kind == 'call' and call_matches(x.term, ['core::result::Result::expect', 'core::result::Result::unwrap']):
+                        for y in origins(reg, x.term['args'][0]):
+                            if y.kind == 'call' and call_matches(y.term, ['core::convert::TryInto::try_into', 'core::convert::TryFrom::try_from']):
+                                if all(z.kind == 'call' and z.bb == ib for z in origins(reg, y.term['args'][0])):
+                                    id_ok = True
+        resolver_ok = all(o.kind == 'call' and o.bb == sb and o.suffix == ['.1'] for o in origins(reg, it['args'][1])) and bool(origins(reg, it['args'][1]))
+        effect_ok = all(o.kind == 'call' and o.bb == sb and o.suffix == ['.0'] for o in origins(reg, fields['effect'])) and bool(origins(reg, fields['effect']))
+        src_ok = all(o.kind == 'arg' and o.n == 2 for o in origins(reg, st['args'][0]))
+        ok = id_ok and resolver_ok and effect_ok and src_ok
+        detail = 'id from the insert key: %s; inserted resolver is serialize().1: %s; returned effect is serialize().0: %s' % (id_ok, resolver_ok, effect_ok)
+    rep.expect('R09.a', ok, 'register', detail or 'shape', 'ResolveRegistry::register: the returned id is not the slab key of this effect\'s resolver (%s)' % detail)
+    check_resume(rep, 'R09.a', 'R09.b', core, res)
+    # R09.a (keys are ids): the slab key of an entry IS the EffectId the shell holds, so nothing may move entries to other keys
+    moved = []
+    n_slab = 0
+    for f in core.built:
+        if f.j.get('exp'):
+            continue
+        for bb, t in f.calls():
+            c = norm(t.get('callee') or '')
+            if c.startswith('slab::Slab::') and 'ResolveSerialized' in ' '.join(t.get('targs') or []):
+                n_slab += 1
+                if last_seg(c) not in SLAB_KEY_STABLE:
+                    moved.append('%s at %s' % (last_seg(c), f.where(bb)))
+    rep.expect('R09.a', n_slab >= 3 and not moved, 'registry|keys-are-stable', '%d slab operations on the registry, none of which renumbers entries' % n_slab,
+               'the bridge registry\'s slab is used through %s: entries can end up under another key than the EffectId the shell was given, so '
+               'pending responses are rejected or resume another request' % moved)
     # R09.e: an id stays bound to its request for as long as the request can be resolved: the entry's state only changes
     # by a one-shot being consumed (shared with C02 R02.a, serialised resolver only)
     rep.rule('R09.e', 'a registry entry changes state only when a one-shot is consumed; a stream entry never changes state', floor=3)
